@@ -250,6 +250,23 @@ static void ob_builtin_stop(H<T>& h)
     T const target = zero_target ? T(0.0) : w.h.input("target", 0.0, 1.0, true, false);
     typename A::chk const base = A::fresh(w);
     hep::callback<typename A::chk> cb(hep::callback_mode::silent, "", target);
+    if (h.get("used", 0) != 0 && n >= 2)
+    {
+        // the decision depends only on the checkpoint handed over (and the target), not on earlier invocations: a newly
+        // constructed callback (as after a restart) and one that has seen the earlier iterations agree
+        std::vector<std::size_t> first(calls.begin(), calls.begin() + 1), rest(calls.begin() + 1, calls.end());
+        typename A::chk const c1 = A::run(w, first, base, always_true<typename A::chk>());
+        typename A::chk const c2 = A::run(w, rest, c1, always_true<typename A::chk>());
+        hep::callback<typename A::chk> fresh(hep::callback_mode::silent, "", target), used_cb(hep::callback_mode::silent, "", target);
+        bool const a = fresh(c2);
+        (void) used_cb(c1);
+        bool const b = used_cb(c2);
+        h.check("C03,C12|builtin.decision_depends_only_on_the_checkpoint_handed_over", h.truth(a == b));
+        if (!zero_target)
+            h.check("C12|builtin.stops_iff_relative_error_of_combination_not_larger_than_target",
+                h.truth(a == !reference_reached<T>(c2.results(), c2.results().size(), target)));
+        return;
+    }
     if (h.get("unit", 0) != 0)
     {
         // unit form: run n iterations with a callback that never stops, then ask the built-in callback
